@@ -293,7 +293,7 @@ def _is_empty_ctor(t, depth=0, facts=None):
     'C20': 'replicas with the same content compare equal only if equality looks at every field; keys of hash tables (clocks, dots) need Hash to agree with Eq',
     'C19': 'round-trip equality is judged by the same PartialEq impls',
     'C02': 'the merge laws are stated up to ==',
-}, **{p_: TYPE_PROP_WHY for ps_ in TYPE_PROPS.values() for p_ in ps_ if p_ not in ('C20', 'C19', 'C02')}), floor=19,
+}, **{p_: TYPE_PROP_WHY for ps_ in TYPE_PROPS.values() for p_ in ps_ if p_ not in ('C20', 'C19', 'C02')}), floor=80,
     inst_filter={p_: (lambda i, p_=p_: p_ in type_props(i) or i in ('floor', 'anchor', 'internal') or (p_ == 'C12' and i.startswith('dot::') and '/from' in i))
                  for ps_ in TYPE_PROPS.values() for p_ in ps_})
 def type_impls(ctx):
@@ -304,7 +304,15 @@ def type_impls(ctx):
     facts = ctx.facts
     own_rule = {('crdts::mvreg::MVReg', 'PartialEq')}
     for b0 in facts.bodies:
-        if b0.kind != 'AssocFn' or b0.derived or b0.serde or not b0.impl_trait or not (b0.impl_self or '').startswith('crdts::'):
+        if b0.kind != 'AssocFn' or b0.serde or not b0.impl_trait or not (b0.impl_self or '').startswith('crdts::'):
+            continue
+        if b0.derived:
+            # a derive is what the hand-written impls are measured against; counted so that swapping a derive for an equivalent
+            # impl (or back) leaves the number of instances unchanged
+            tr_ = b0.impl_trait.split('::')[-1]
+            if (tr_, b0.name) in (('PartialEq', 'eq'), ('Hash', 'hash'), ('Default', 'default'), ('Clone', 'clone')) \
+                    and facts.adts.get(b0.impl_self) is not None:
+                ctx.ok('%s/%s' % (b0.impl_self.replace('crdts::', ''), b0.name), None, 'derived', nontrivial=False, fnkey=b0.impl_self)
             continue
         tr = b0.impl_trait.split('::')[-1]
         adt = facts.adts.get(b0.impl_self)
@@ -520,3 +528,156 @@ def cmp_provided(ctx):
                       '`%s` is overridden with its own computation (%s): `a %s b` no longer is what partial_cmp says, and every decision '
                       'written with that operator changes with it' % (n, {k: v for k, v in truth.items()}, {'lt': '<', 'le': '<=', 'gt': '>', 'ge': '>='}[n]),
                       fnkey=im['self_key'])
+
+
+SEQ_TYPES = {'Vec', 'VecDeque', 'LinkedList', 'BinaryHeap'}
+EQ_STATE_ADTS = [ORSWOT, MAP, 'crdts::map::Entry', MVREG, LIST, GLIST, MERKLE, 'crdts::merkle_reg::Node', VCLOCK, GCOUNTER, PNCOUNTER, GSET, LWWREG,
+                 MAXREG, MINREG]
+
+
+def _seq_inside(ty):
+    """A sequence container compared element by element, reached without passing through a crate type (those answer for
+    their own equality)."""
+    if not isinstance(ty, dict):
+        return None
+    if ty.get('k') == 'adt':
+        if ty['path'].startswith('crdts::'):
+            return None
+        if ty['path'].split('::')[-1] in SEQ_TYPES:
+            return ty.get('s') or ty['path']
+    if ty.get('k') in ('slice',):
+        return ty.get('s')
+    for a in (ty.get('args') or []) + (ty.get('elems') or []):
+        r = _seq_inside(a)
+        if r:
+            return r
+    for k in ('ty', 'inner', 'elem'):
+        if isinstance(ty.get(k), dict):
+            r = _seq_inside(ty[k])
+            if r:
+                return r
+    return None
+
+
+@rule('EQ-CANON', {
+    'C20': 'replicas with the same knowledge must compare equal whatever order (and however often) that knowledge arrived in: a state '
+           'type whose `==` is the derived, structural one must therefore keep unordered data in order-insensitive containers',
+    'C02': 'a+b == b+a is judged with the same equality',
+}, floor=14)
+def eq_canon(ctx):
+    """State types with a derived PartialEq hold no Vec / VecDeque / LinkedList / BinaryHeap / slice (outside nested crate types)."""
+    facts = ctx.facts
+    for adt in EQ_STATE_ADTS:
+        a = ctx.adt(adt)
+        short = adt.replace('crdts::', '')
+        pe = [i for i in facts.impls if i.get('self_key') == adt and (i.get('trait') or '').split('::')[-1] == 'PartialEq']
+        if not pe:
+            ctx.ok(short, None, 'no PartialEq', nontrivial=False, fnkey=adt)
+            continue
+        if not pe[0].get('derived'):
+            ctx.ok(short, None, 'hand-written equality (judged by its own rule)', nontrivial=False, fnkey=adt)
+            continue
+        bad = [(f['name'], _seq_inside(f['ty'])) for v in a['variants'] for f in v['fields'] if _seq_inside(f['ty'])]
+        ctx.check(not bad, short, None, 'derived ==; every field is a map, a set, a scalar or a crate type',
+                  '%s derives PartialEq but field %s is %s: two replicas holding the same elements in another order (or with a repeat) '
+                  'compare unequal' % (short, bad[0][0] if bad else '', bad[0][1] if bad else ''), fnkey=adt)
+
+
+@rule('BORROW-ORD', dict({
+    'C12': 'List looks its elements up in a map keyed by Identifier: a lookup through a borrowed form that sorts differently misses them',
+    'C14': 'one total order on identifiers, whichever form a container compares',
+}, **{p_: 'a key type of this module looked up through a borrowed form with another order / equality / hash is not found although present'
+      for ps_ in TYPE_PROPS.values() for p_ in ps_}), floor=1,
+    inst_filter={p_: (lambda i, p_=p_: p_ in type_props(i) or i in ('floor', 'anchor', 'internal', 'census')) for ps_ in TYPE_PROPS.values() for p_ in ps_})
+def borrow_ord(ctx):
+    """`impl Borrow<X> for T` promises that X compares, sorts and hashes exactly like T (std contract; BTreeMap / HashMap lookups
+    rely on it).  For a crate type that holds only when T's Eq / Ord / Hash are all derived and X is the type of T's single
+    field; any other Borrow impl on a crate type is reported."""
+    facts = ctx.facts
+    n = 0
+    for im in facts.impls:
+        tr = (im.get('trait') or '').split('::')[-1]
+        sk = str(im.get('self_key') or '')
+        if tr not in ('Borrow', 'BorrowMut') or not sk.startswith('crdts::'):
+            continue
+        n += 1
+        short = sk.replace('crdts::', '')
+        adt = facts.adts.get(sk)
+        target = (im.get('trait_args') or [{}])[0]
+        manual = sorted(set((i.get('trait') or '').split('::')[-1] for i in facts.impls
+                            if i.get('self_key') == sk and not i.get('derived')
+                            and (i.get('trait') or '').split('::')[-1] in ('PartialEq', 'Eq', 'PartialOrd', 'Ord', 'Hash')))
+        single = adt is not None and adt['kind'] == 'struct' and len(adt['variants'][0]['fields']) == 1
+        same = single and (adt['variants'][0]['fields'][0]['ty'].get('s') == target.get('s'))
+        ctx.check(not manual and same, '%s/Borrow<%s>' % (short, target.get('s', '?')), None,
+                  'newtype with derived Eq/Ord/Hash borrowed as its field',
+                  '%s implements Borrow<%s> but %s: the borrowed form does not compare / sort / hash like the owner, so '
+                  'map and set lookups through it miss present keys' % (short, target.get('s', '?'),
+                  ('its ' + ', '.join(manual) + ' is hand-written') if manual else 'the target is not the type of its single field'),
+                  fnkey=sk)
+    ctx.ok('census', None, '%d Borrow impls on crate types' % n, nontrivial=False)
+
+
+FIRST_SEL = {'next', 'first', 'first_key_value'}
+LAST_SEL = {'next_back', 'last', 'last_key_value'}
+ACC_SPEC = [
+    # (type, method, kind, field)
+    (GLIST, 'len', 'len', 'list'), (GLIST, 'is_empty', 'is_empty', 'list'), (GLIST, 'iter', 'walk', 'list'), (GLIST, 'get', 'nth', 'list'),
+    (GLIST, 'first', 'first', 'list'), (GLIST, 'last', 'last', 'list'),
+    (LIST, 'len', 'len', 'seq'), (LIST, 'is_empty', 'is_empty', 'seq'), (LIST, 'get', 'lookup', 'seq'), (LIST, 'position', 'nth', 'seq'),
+    (LIST, 'first', 'first', 'seq'), (LIST, 'first_entry', 'first', 'seq'), (LIST, 'last', 'last', 'seq'), (LIST, 'last_entry', 'last', 'seq'),
+    (MERKLE, 'num_nodes', 'len', 'dag'), (MERKLE, 'num_orphans', 'len', 'orphans'), (MERKLE, 'all_nodes', 'walk', 'dag'),
+    ('crdts::merkle_reg::Content', 'is_empty', 'is_empty', 'nodes'), ('crdts::merkle_reg::Content', 'values', 'walk', 'nodes'),
+    ('crdts::merkle_reg::Content', 'nodes', 'walk', 'nodes'), ('crdts::merkle_reg::Content', 'hashes', 'walk', 'nodes'),
+    ('crdts::merkle_reg::Content', 'hashes_and_nodes', 'walk', 'nodes'),
+]
+
+
+@rule('ACC-PLAIN', floor=22, **read_attribution({}, module=None))   # what a replica shows: served per type through READ_OBSERVES
+def acc_plain(ctx):
+    """Plain read accessors delegate to the container field they describe: len / is_empty of that field, a walk over all of it,
+    its first / last element, the n-th element of the walk, the lookup of the given key."""
+    facts = ctx.facts
+    for adt, name, kind, field in ACC_SPEC:
+        body = ctx.inherent(adt, name)
+        short = adt.split('::')[-1] + '::' + name
+        r = drop_lv(inline_option_maps(facts, normal(facts, interp(facts, body).ret)))
+        ok = False
+        why = ''
+
+        def over_field(src, allow_rev=False):
+            base, k_, clo = iter_source(src)
+            pp = param_path(base)
+            ads = set(iter_adaptors(src))
+            return bool(pp and pp[0] == 1 and pp[1] == (field,) and not (ads & LOSSY_ADAPTORS) and (allow_rev or 'rev' not in ads)
+                        and 'nth' not in ads and 'chain' not in ads and 'zip' not in ads)
+        if kind in ('len', 'is_empty'):
+            if r[0] == 'call' and call_name(r) == kind and len(r[2]) == 1:
+                ok = param_path(r[2][0]) == (1, (field,))
+            elif kind == 'len' and is_call(r, 'count') and r[2]:
+                ok = over_field(r[2][0])
+            elif kind == 'is_empty' and r[0] == 'binop' and r[1] == 'Eq':
+                a_, b_ = drop_lv(r[2]), drop_lv(r[3])
+                for x, y in ((a_, b_), (b_, a_)):
+                    if y[0] == 'const' and y[1] == 0 and is_call(x, 'len') and len(x[2]) == 1 and param_path(x[2][0]) == (1, (field,)):
+                        ok = True
+        elif kind == 'walk':
+            src = r[2][0] if is_call(r, 'collect') and r[2] else r
+            ok = over_field(src)
+        elif kind == 'nth':
+            ok = is_call(r, 'nth') and len(r[2]) == 2 and over_field(r[2][0]) and value_path(drop_lv(r[2][1])) == (2, ())
+        elif kind == 'lookup':
+            ok = is_call(r, ('get',)) and len(r[2]) == 2 and param_path(r[2][0]) == (1, (field,)) and value_path(drop_lv(r[2][1])) == (2, ())
+        elif kind in ('first', 'last'):
+            sels = [st for st in subterms(versionless(r)) if st[0] == 'call' and call_name(st) in FIRST_SEL | LAST_SEL and st[2]]
+            if len(sels) == 1:
+                st = sels[0]
+                n = call_name(st)
+                src = st[2][0]
+                direct = param_path(src) == (1, (field,))       # first() / last_key_value() on the container itself
+                rev = 'rev' in set(iter_adaptors(src))
+                end = ('first' if n in FIRST_SEL else 'last')
+                if rev:
+                    end = 'last' if end == 'first' else 'first'
+                ok = end == kind and (direct or over_field(src, allow_rev=True))
+        ctx.check(ok, short, body, '%s of self.%s' % (kind, field), '%s is %s, expected the %s of self.%s' % (short, fmt(r, 5), kind, field))
